@@ -411,6 +411,12 @@ func evalUpload(c UpCase) (vev.Outcome, error) {
 	var closeEntered atomic.Bool
 	release := make(chan struct{})
 	var once sync.Once
+	// stall scripts: the server tells the harness when it has stopped reading, and the harness cancels the
+	// caller's context from outside the writing goroutine (a Write that is blocked on a full pipe can never reach
+	// a cancel point of its own; waiting for one would be a deadlock made by the harness, not by the library)
+	stalled := make(chan struct{})
+	reached := make(chan struct{})
+	var stalledOnce, reachedOnce sync.Once
 	handler := http.HandlerFunc(func(w http.ResponseWriter, r *http.Request) {
 		readK := func(k int) {
 			if k > 0 {
@@ -455,6 +461,7 @@ func evalUpload(c UpCase) (vev.Outcome, error) {
 			conn.Close()
 		case "stall":
 			readK(c.K)
+			stalledOnce.Do(func() { close(stalled) })
 			select {
 			case <-r.Context().Done():
 			case <-release:
@@ -480,6 +487,23 @@ func evalUpload(c UpCase) (vev.Outcome, error) {
 		cancelled  int64
 	}
 	ch := make(chan res, 1)
+	var cancelledAt atomic.Int64
+	if c.Server == "stall" {
+		go func() {
+			select {
+			case <-stalled:
+			case <-release:
+				return
+			}
+			select {
+			case <-reached:
+			case <-time.After(100 * time.Millisecond):
+			case <-release:
+			}
+			cancelledAt.CompareAndSwap(0, seq.Add(1))
+			cancel()
+		}()
+	}
 	go func() {
 		var r res
 		w, err := cl.Create(ctx, "/upload.bin")
@@ -495,9 +519,8 @@ func evalUpload(c UpCase) (vev.Outcome, error) {
 		}
 		written := 0
 		for written < len(data) {
-			if c.Server == "stall" && r.cancelled == 0 && written >= c.CancelAt {
-				r.cancelled = seq.Add(1)
-				cancel()
+			if c.Server == "stall" && written >= c.CancelAt {
+				reachedOnce.Do(func() { close(reached) })
 			}
 			e := written + chunk
 			if e > len(data) {
@@ -509,10 +532,7 @@ func evalUpload(c UpCase) (vev.Outcome, error) {
 			}
 			written = e
 		}
-		if c.Server == "stall" && r.cancelled == 0 {
-			r.cancelled = seq.Add(1)
-			cancel()
-		}
+		reachedOnce.Do(func() { close(reached) })
 		closeEntered.Store(true)
 		r.cerr = w.Close()
 		r.closedAt = seq.Add(1)
